@@ -171,7 +171,7 @@ func TestC06(t *testing.T) {
 	n := vn.New(vn.Config{Seed: uint64(r.Seed), NumVals: 1, NumAccounts: 4})
 	env := &c06env{n: n, a: n.Accounts[0], b: n.Accounts[1]}
 	n.BeginBlock(vn.BlockOpts{})
-	ncases := r.Pick(3200, 96000)
+	ncases := r.Cases(3200, 96000)
 	inBlock := 0
 	for i := 0; i < ncases; i++ {
 		id := fmt.Sprintf("tree/%d", i)
